@@ -29,7 +29,7 @@ def run(tier):
     common.build("plain")
     wd = common.workdir("c15")
     for cfgname in ("MC_ReaderUnit.cfg",):
-        r = common.tlc("ReaderImpl", cfgname, workers=8, timeout=900)
+        r = common.tlc("ReaderImpl", cfgname if tier != "thorough" else common.cfg_variant(cfgname, wd, MaxCalls=5), workers=8, timeout=1800, heap="8g")
         ck.require_ok("ReaderImpl/" + cfgname, r); ck.add_tlc("ReaderImpl/" + cfgname + " (NoReleaseBeforeVerify, HistoryIndependence, SequentialPrefix, EveryCallReturns)", r, "3 chunks x 3 cells, statuses ok/flip/undec, reads 1..4, chunk requests, 4 calls")
     files = zstd_files(rnd)
     cases = []   # (name, path-bytes, sizes, pre-lines, rf)
